@@ -34,13 +34,14 @@ TStart ==
     /\ Rec[l].g \notin DOMAIN grp
     /\ grp' = (Rec[l].g :> [start |-> clock, n |-> Rec[l].n]) @@ grp
     /\ UNCHANGED <<clock, sum, any>>
-\* the thread has completed every guard of the group: `kept` by drop / stop, `discarded` by discard
+\* the thread has completed every guard of the group: `kept` by drop / stop, `unwound` dropped by a panic
+\* unwinding through their scope (a completed span like any other), `discarded` by discard
 TDone ==
     /\ Ev("Done") /\ Adv
     /\ Rec[l].g \in DOMAIN grp
-    /\ Rec[l].kept + Rec[l].discarded = grp[Rec[l].g].n
-    /\ sum' = sum + Rec[l].kept * (clock - grp[Rec[l].g].start)
-    /\ any' = (any \/ Rec[l].kept > 0)
+    /\ Rec[l].kept + Rec[l].unwound + Rec[l].discarded = grp[Rec[l].g].n
+    /\ sum' = sum + (Rec[l].kept + Rec[l].unwound) * (clock - grp[Rec[l].g].start)
+    /\ any' = (any \/ Rec[l].kept + Rec[l].unwound > 0)
     /\ grp' = [g \in DOMAIN grp \ {Rec[l].g} |-> grp[g]]
     /\ UNCHANGED clock
 TClear == Ev("Clear") /\ Adv /\ sum' = 0 /\ any' = FALSE /\ UNCHANGED <<clock, grp>>
